@@ -190,7 +190,7 @@ func c16Multibase() {
 }
 
 var c16Codes = []multicodec.Code{Ed25519, Secp256k1, P256, P384, P521, RSA}
-var c16Lens = [][]int{{32, 31}, {33, 65}, {33}, {49}, {67}, {5}}
+var c16Lens = [][]int{{32, 31, 0}, {33, 65, 0}, {33, 0, 1}, {49, 0}, {67, 0}, {5, 0}}
 
 // VerifC16Canonical: an accepted identifier from which a key can be
 // extracted is the canonical identifier of that key (one principal, one DID).
